@@ -1,6 +1,7 @@
 package main
 
 import (
+	"math"
 	"encoding/json"
 	"flag"
 	"fmt"
@@ -86,7 +87,7 @@ func (a absConfig) concrete() cors.Config {
 func (a absConfig) toJSON() map[string]any {
 	return map[string]any{"origins": nze(a.Origins), "methods": nze(a.Methods), "reqh": nze(a.ReqH), "resph": nze(a.RespH),
 		"cred": a.Cred, "pna": a.Pna, "nocors": a.NoCors, "tolInsecure": a.TolInsecure, "tolPSL": a.TolPSL,
-		"maxAge": a.MaxAge, "status": a.Status}
+		"maxAge": capInt(a.MaxAge), "status": capInt(a.Status)}
 }
 
 func isGood(a atom) bool { return a.Cls != "bad" && a.Cls != "malformed" }
@@ -121,8 +122,24 @@ func (t *atomTable) pickList(rng *rand.Rand, field string, pBad float64, maxLen 
 	return out
 }
 
-var maxAges = []int{-2, -1, 0, 1, 5, 600, 86400, 86401, -100, 1<<31 - 1}
-var statuses = []int{0, 199, 200, 204, 299, 300, -1, 1000, 250}
+// boundary integers, including values that only differ from an acceptable one above bit 8, 16, 31 or 32 (a check done after a
+// narrowing conversion accepts them) and the extremes of int
+var maxAges = []int{-2, -1, 0, 1, 5, 600, 86400, 86401, -100, 1<<31 - 1, 1 << 31, 1<<32 + 5, 1 << 32, 1<<32 - 1, 1<<32 + 86400, -(1 << 32), -(1 << 32) - 1,
+	1<<16 + 86400, 1<<17 + 5, 256 + 86400, math.MaxInt64, math.MinInt64, 1<<62 + 30}
+var statuses = []int{0, 199, 200, 204, 299, 300, -1, 1000, 250, 456, 460, 555, 1<<16 + 204, 1<<16 + 250, 1<<31 + 204, 1<<32 + 204, 1<<32 + 250, 1<<32 + 299,
+	-(1 << 32) + 204, 1<<33 + 200, 1 << 32, math.MaxInt64, math.MinInt64, 1<<40 + 204, 1<<48 + 250}
+
+// capInt maps integers beyond TLC's 32-bit range to a representative of the same class (far out of every documented bound).
+func capInt(v int) int {
+	const lim = 1<<31 - 1
+	if v > lim {
+		return lim
+	}
+	if v < -lim {
+		return -lim
+	}
+	return v
+}
 
 func (t *atomTable) randAbsConfig(rng *rand.Rand) absConfig {
 	// three regimes: clean (no defective atom), a single field defective, anything goes
@@ -234,6 +251,20 @@ func observeErr(err error) (errs []map[string]any, nyield int, panicked bool) {
 
 func emitValidate(t *tracer, via string, ac absConfig, err error, nilmw bool) {
 	errs, ny, pan := observeErr(err)
+	// integers beyond TLC's range: the error must report the value AS SUPPLIED; if it does, the event carries the capped
+	// representative (as the configuration does), otherwise the (wrong) reported value stays
+	for _, d := range errs {
+		switch d["t"] {
+		case "MaxAgeOutOfBoundsError":
+			if d["v"] == fmt.Sprint(ac.MaxAge) {
+				d["v"] = fmt.Sprint(capInt(ac.MaxAge))
+			}
+		case "PreflightSuccessStatusOutOfBoundsError":
+			if d["v"] == fmt.Sprint(ac.Status) {
+				d["v"] = fmt.Sprint(capInt(ac.Status))
+			}
+		}
+	}
 	msg := ""
 	if err != nil {
 		msg = err.Error()
